@@ -11,6 +11,8 @@ IR (JSON-able, so that a case can be replayed from its record):
     "pbind": "imports" | "module"                where f3, f4, f5 (D / P / B names) come from
     "decoy": bool                                context also holds callables named h, x, u, ...
     "body": [node, ...]
+    "vals": {name: value}                        (optional) context values fixed by the program (nested-pipeline family)
+    "sub":  prog                                 (optional) a second template; the context callable sub() renders it
   }
   node = ["text", s]
        | ["expr", src, [filter source, ...], raw]   raw: None (canonical spelling) or the exact text between "${" and "}"
@@ -243,7 +245,13 @@ def context_for(prog, vname):
     if prog.get("decoy"):
         for n in ("h", "x", "u", "trim", "entity", "n", "unicode", "decode"):
             ctx[n] = "@helper:decoy_" + n
-    ctx["v"] = vname
+    if vname is not None:
+        ctx["v"] = vname
+    ctx.update(prog.get("vals") or {})  # values fixed by the program itself (nested-pipeline family)
+    if prog.get("fam") == "nest":
+        ctx["box"] = "@helper:box"
+    if prog.get("sub") is not None:
+        ctx["sub"] = "@sub"  # a callable rendering the second template prog["sub"]; built by the harness per side
     return ctx
 
 
@@ -272,6 +280,7 @@ class Interp:
         if prog.get("bind", "ctx") != "ctx":
             for n in ("f1", "f2", "g", "ns", "boom"):
                 env[n] = getattr(c02_env, n)
+        env["capture"] = self._capture_call  # documented built-in: run a callable with a fresh buffer, return its content
         env.update(ctx)
         self.env = env
         for nd in prog["body"]:
@@ -287,6 +296,14 @@ class Interp:
         self.stack.append([])
         try:
             self.run(nodes, env)
+        finally:
+            buf = self.stack.pop()
+        return "".join(buf)
+
+    def _capture_call(self, f, *a, **k):
+        self.stack.append([])
+        try:
+            f(*a, **k)
         finally:
             buf = self.stack.pop()
         return "".join(buf)
@@ -370,6 +387,11 @@ def _has_call(nodes):
         if nd[0] in ("def", "block") and _has_call(nd[3]):
             return True
     return False
+
+
+def reference_sub(prog, ctx):
+    """the callable `sub` of the reference side: renders the second program with its own filters"""
+    return lambda: Interp(prog, ctx).render()
 
 
 def reference(prog, ctx):
